@@ -9,6 +9,9 @@ def check(rep):
     PR.rule_layout_names(ctx)
     from . import evalrules as ER
     ER.rule_call_forwards(ctx, rid="C14.EVALUATOR-FORWARDS", no_try=True)
+    # "the evaluator built from the same source": the function it runs is the one compiled from that source, whatever happened before
+    # or to other evaluators
+    ER.rule_installed_function(ctx, rid="C14.EVALUATOR-RUNS-ITS-TEXT", strict=False, facets=("installed",))
     PR.rule_layouts_agree(ctx)
     PR.rule_depth_unbounded(ctx)
     PR.rule_header_imports(ctx)
